@@ -296,3 +296,39 @@ def _owning_if(hb, let_node):
                 if x is let_node:
                     return n
     return None
+
+
+# --------------------------------------------------------------------------- how output files are opened
+
+def write_opens(fx, hb):
+    """(node, verdict, why) for every call in the body that opens a file for writing.
+    verdict True = the file is created/truncated (File::create, create_new, or OpenOptions with truncate(true))."""
+    out = []
+    for n, ps in walk_body(hb):
+        if n.get("k") not in ("Call", "MethodCall") or not n.get("callee"):
+            continue
+        cd = (n["callee"].get("def") or "")
+        if cd == "std::fs::File::create" or cd == "std::fs::File::create_new":
+            out.append((n, True, cd))
+        elif cd in ("std::fs::OpenOptions::open", "std::fs::File::options"):
+            if cd.endswith("::options"):
+                continue
+            # walk the builder chain
+            chain = []
+            x = n
+            while x.get("k") == "MethodCall":
+                chain.append((x["name"], x["args"]))
+                x = peel(x["recv"])
+            names = {c[0]: c[1] for c in chain}
+
+            def flag(name):
+                a = names.get(name)
+                return bool(a) and peel(a[0]).get("k") == "Lit" and peel(a[0])["lit"].get("v") is True
+            writes = flag("write") or flag("append") or flag("create") or flag("create_new")
+            if not writes:
+                continue
+            ok = flag("truncate") or flag("create_new")
+            out.append((n, ok, "OpenOptions{%s}" % ", ".join(sorted(k for k in names if k not in ("open",)))))
+        elif cd == "std::fs::write":
+            out.append((n, True, cd))
+    return out
